@@ -77,7 +77,7 @@ fn plan(prop: &str, tier: &str) -> Plan {
     for sd in TREE_SEEDS {
         // light oracles walk the perft-suite seeds one ply deeper in the quick tier
         let light = matches!(prop, "C01" | "C02" | "C03" | "C05" | "C12");
-        let bump = if !thorough && light && matches!(sd.name, "startpos" | "kiwipete" | "pos3" | "pos4" | "pos4m" | "pos5" | "pos6") { 1 } else { 0 };
+        let bump = if light && matches!(sd.name, "startpos" | "kiwipete" | "pos3" | "pos4" | "pos4m" | "pos5" | "pos6") { 1 } else { 0 };
         let d = (depth_for(sd, tier) as i32 + adj + bump).max(0) as u32;
         let root = Pos::from_fen(sd.fen).unwrap();
         let split = if d >= 3 { 2 } else if d == 2 { 1 } else { 0 };
